@@ -216,6 +216,28 @@ Lemma exec_guarded_denied (c : config) (n : native) :
   caps_exec c = false -> In n exec_guarded -> exec_guard c n = DeniedE.
 Proof. intros H Hin. unfold exec_guard. apply nmem_In in Hin. rewrite Hin, H. reflexivity. Qed.
 
+(* ---------------------------------------------------------------- effects vs gates, for every registered native *)
+Lemma gates_cover_effects_true : gates_cover_effects = true.
+Proof. vm_compute. reflexivity. Qed.
+
+Lemma denied_capability_cannot_be_exercised_lemma (c : config) (n : native) (e b : string) :
+  bit_of_effect e = Some b -> cap_bit c b = false -> can_perform c n e = false.
+Proof.
+  intros Hb Hc. unfold can_perform.
+  destruct (smem e (effects_of n)) eqn:He; [|reflexivity]. cbn [andb].
+  unfold effects_of in He.
+  destruct (find (fun p => native_eqb (fst p) n) native_effects) as [p|] eqn:F; [|discriminate He].
+  apply find_some in F as [Hin Heq]. apply native_eqb_eq in Heq.
+  pose proof gates_cover_effects_true as G. unfold gates_cover_effects in G. rewrite forallb_forall in G.
+  specialize (G p Hin). rewrite forallb_forall in G. apply smem_In in He. specialize (G e He). rewrite Hb in G.
+  rewrite Heq in G. apply smem_In in G.
+  destruct (forallb (cap_bit c) (percall_bits n)) eqn:FA; [|reflexivity].
+  rewrite forallb_forall in FA. rewrite (FA b G) in Hc. discriminate Hc.
+Qed.
+
+Lemma registration_sites_known : unknown_registrations registration_sites = [].
+Proof. vm_compute. reflexivity. Qed.
+
 (* ---------------------------------------------------------------- native capabilities *)
 Lemma deny_beats_allow_lemma (c : config) (cap : string) :
   In cap (denied c) -> check_native_capability c cap = false.
